@@ -54,6 +54,7 @@ type ReqRec struct {
 	PanicAt  []int `json:"-"`
 	PanicSeq int64 `json:"-"`
 	Done     bool  `json:"-"` // ServeHTTP has returned (or panicked)
+	Hijacked bool  `json:"-"` // a handler took over the connection
 	PanicVal any   `json:"-"` // value of a panic caused by an injected writer fault
 	// route cache bookkeeping
 	CacheKeys string `json:"-"` // keys from most to least recent when the request finished
@@ -102,6 +103,7 @@ type World struct {
 	cur      [maxTasks]*reqState // request being served by each task
 	solo     *reqState           // request being served outside the scheduler
 	identify *string
+	inner    *rux.Router // a second router mounted below the main one ("mount" action)
 
 	copies     [16]*rux.Context
 	copyOrigin [16]*ReqRec
@@ -212,6 +214,12 @@ func BuildWorld(sc *Scenario, bo BuildOpt) (w *World) {
 	}()
 	actionCounter = 0
 	w.register(sc.Program, nil)
+	if sc.Inner {
+		// the mounted router: two routes served by harness handlers of this world
+		w.inner = rux.New()
+		w.inner.GET("/in/a", w.h("i0"), w.h("j0"))
+		w.inner.Add("/in/b", w.h("i1"), "GET", "POST", "HEAD")
+	}
 	return w
 }
 
@@ -365,6 +373,21 @@ func defaultScript(id string) []Action {
 	return []Action{{Op: "obs"}, {Op: "next"}, {Op: "obs"}}
 }
 
+// bufWriter is what a buffering middleware puts in c.Resp.
+type bufWriter struct {
+	hdr    http.Header
+	status int
+	body   []byte
+}
+
+func (b *bufWriter) Header() http.Header { return b.hdr }
+func (b *bufWriter) WriteHeader(code int) {
+	if code > 0 {
+		b.status = code
+	}
+}
+func (b *bufWriter) Write(p []byte) (int, error) { b.body = append(b.body, p...); return len(p), nil }
+
 type passWriter struct{ http.ResponseWriter }
 
 func (p passWriter) Flush() {
@@ -514,6 +537,39 @@ func (w *World) act(rs *reqState, id string, c *rux.Context, a Action) {
 		c.Params = rux.Params{a.S: a.V}
 	case "swapwriter":
 		c.Resp = passWriter{c.Resp}
+	case "bufnext": // a middleware that buffers the response of the rest of the chain and writes it out afterwards
+		old := c.Resp
+		buf := &bufWriter{hdr: old.Header()}
+		c.Resp = buf
+		taskYield(siteHNext)
+		c.Next()
+		taskYield(siteHNext)
+		c.Resp = old
+		if buf.status == 0 {
+			buf.status = 200
+		}
+		c.Resp.WriteHeader(buf.status)
+		if len(buf.body) > 0 {
+			c.Resp.Write(buf.body)
+		}
+	case "hijack":
+		if hj, ok := c.Resp.(http.Hijacker); ok {
+			conn, _, err := hj.Hijack()
+			if conn != nil {
+				conn.Close()
+			}
+			rec.Hijacked = err == nil
+			add("hijack", fmt.Sprint(err == nil))
+		}
+	case "mount": // a second rux router mounted below this one (rux.WrapH(inner) as main handler)
+		if w.inner != nil {
+			add("mount", a.S)
+			u := *c.Req.URL
+			u.Path = a.S
+			r2 := *c.Req
+			r2.URL = &u
+			w.inner.ServeHTTP(c.Resp, &r2)
+		}
 	case "nextrecover":
 		func() {
 			defer func() {
